@@ -24,10 +24,10 @@ theorem no_panic_of_guards (g : Guards) (hg : g.all = true) (i : Input) : (runWi
   cases i.fuzz <;> simp
   cases he : i.entry <;> simp
   all_goals
-    cases ho : i.oci <;> cases hb : i.blob <;> cases hs : i.sig <;> cases hm : i.manager <;>
+    cases ho : i.oci <;> cases hb : i.blob <;> cases hs : i.sig <;> cases hm : i.manager <;> cases hrf : revFails i <;>
       (simp [vVerify, vVerifyBlob, vVerifyBlobGenError, skipVerify, nVerify, nVerifyBlob, userMetadata, nilArgs, verifyWithStmt,
-        ho, hb, hs, hm, blobStmt, g1, g2, g3, g4, g5, g6, g7, g8, g9, g10, g11, failNoOutcome, failWith, okWith, panic, hostile] <;> cases hn : i.named <;> simp [vVerify, vVerifyBlob, vVerifyBlobGenError, skipVerify, nVerify, nVerifyBlob, userMetadata, nilArgs, verifyWithStmt,
-        ho, hb, hs, hm, hn, blobStmt, g1, g2, g3, g4, g5, g6, g7, g8, g9, g10, g11, failNoOutcome, failWith, okWith, panic, hostile])
+        ho, hb, hs, hm, hrf, revStep, signingKeys, blobStmt, g1, g2, g3, g4, g5, g6, g7, g8, g9, g10, g11, failNoOutcome, failWith, okWith, panic, hostile] <;> cases hn : i.named <;> simp [vVerify, vVerifyBlob, vVerifyBlobGenError, skipVerify, nVerify, nVerifyBlob, userMetadata, nilArgs, verifyWithStmt,
+        ho, hb, hs, hm, hrf, revStep, signingKeys, hn, blobStmt, g1, g2, g3, g4, g5, g6, g7, g8, g9, g10, g11, failNoOutcome, failWith, okWith, panic, hostile])
 
 theorem no_panic (i : Input) : (run i).panicked = false := no_panic_of_guards _ guards_present i
 
@@ -63,8 +63,8 @@ theorem err_consistency (i : Input) (hf : i.fuzz = false)
   unfold run runWith policySelected
   rcases he with he | he | he <;> simp only [hf, he, Bool.false_eq_true, if_false]
   all_goals
-    cases ho : i.oci <;> cases hb : i.blob <;> cases hs : i.sig <;> cases hm : i.manager <;>
-      (simp [vVerify, vVerifyBlob, vVerifyBlobGenError, verifyWithStmt, ho, hb, hs, hm, blobStmt, g9, g10, g11, failNoOutcome, failWith, okWith, panic, hostile] <;> cases hn : i.named <;> simp [vVerify, vVerifyBlob, vVerifyBlobGenError, verifyWithStmt, ho, hb, hs, hm, hn, blobStmt, g9, g10, g11, failNoOutcome, failWith, okWith, panic, hostile])
+    cases ho : i.oci <;> cases hb : i.blob <;> cases hs : i.sig <;> cases hm : i.manager <;> cases hrf : revFails i <;>
+      (simp [vVerify, vVerifyBlob, vVerifyBlobGenError, verifyWithStmt, ho, hb, hs, hm, hrf, revStep, signingKeys, blobStmt, g9, g10, g11, failNoOutcome, failWith, okWith, panic, hostile] <;> cases hn : i.named <;> simp [vVerify, vVerifyBlob, vVerifyBlobGenError, verifyWithStmt, ho, hb, hs, hm, hrf, revStep, signingKeys, hn, blobStmt, g9, g10, g11, failNoOutcome, failWith, okWith, panic, hostile])
 
 /-- the wrappers never report success without an outcome that is free of error -/
 theorem wrapper_success_has_clean_outcome (i : Input) (hf : i.fuzz = false)
@@ -77,9 +77,9 @@ theorem wrapper_success_has_clean_outcome (i : Input) (hf : i.fuzz = false)
   unfold run runWith
   rcases he with he | he <;> simp only [hf, he, Bool.false_eq_true, if_false]
   all_goals
-    cases ho : i.oci <;> cases hb : i.blob <;> cases hs : i.sig <;> cases hm : i.manager <;>
-      (simp [vVerify, vVerifyBlob, skipVerify, nVerify, nVerifyBlob, verifyWithStmt, ho, hb, hs, hm, blobStmt,
-        g3, g6, g8, g9, g10, g11, failNoOutcome, failWith, okWith, panic, hostile] <;> cases hn : i.named <;> simp [vVerify, vVerifyBlob, skipVerify, nVerify, nVerifyBlob, verifyWithStmt, ho, hb, hs, hm, hn, blobStmt,
+    cases ho : i.oci <;> cases hb : i.blob <;> cases hs : i.sig <;> cases hm : i.manager <;> cases hrf : revFails i <;>
+      (simp [vVerify, vVerifyBlob, skipVerify, nVerify, nVerifyBlob, verifyWithStmt, ho, hb, hs, hm, hrf, revStep, signingKeys, blobStmt,
+        g3, g6, g8, g9, g10, g11, failNoOutcome, failWith, okWith, panic, hostile] <;> cases hn : i.named <;> simp [vVerify, vVerifyBlob, skipVerify, nVerify, nVerifyBlob, verifyWithStmt, ho, hb, hs, hm, hrf, revStep, signingKeys, hn, blobStmt,
         g3, g6, g8, g9, g10, g11, failNoOutcome, failWith, okWith, panic, hostile])
 
 /-- the statement lookup by name and the lookup of the global statement (empty `TrustPolicyName`)
@@ -90,7 +90,7 @@ theorem policy_name_irrelevant (g : Guards) (i : Input) (b : Bool) (hs : i.blob 
   unfold runWith
   cases hf : i.fuzz <;> simp [hf]
   cases hb : i.blob <;> simp_all <;>
-  cases he : i.entry <;> simp [he, hb, blobStmt, hostile, withinCap, vVerify, vVerifyBlob, vVerifyBlobGenError, skipVerify, nVerify, nVerifyBlob, userMetadata]
+  cases he : i.entry <;> simp [he, hb, blobStmt, hostile, withinCap, vVerify, vVerifyBlob, vVerifyBlobGenError, skipVerify, nVerify, nVerifyBlob, userMetadata, revStep, revFails, signingKeys]
 
 /-- a verifier without blob document answers both lookups alike: an error, no panic, no outcome -/
 theorem missing_document_same_for_both_lookups (i : Input) (hf : i.fuzz = false) (hb : i.blob = .missing)
@@ -108,7 +108,7 @@ theorem missing_document_same_for_both_lookups (i : Input) (hf : i.fuzz = false)
 theorem workers_irrelevant (g : Guards) (i : Input) (n : Nat) : runWith g { i with workers := n } = runWith g i := by
   unfold runWith
   cases hf : i.fuzz <;> simp [hf]
-  cases he : i.entry <;> simp [he, blobStmt, hostile, withinCap, vVerify, vVerifyBlob, vVerifyBlobGenError, skipVerify, nVerify, nVerifyBlob, userMetadata]
+  cases he : i.entry <;> simp [he, blobStmt, hostile, withinCap, vVerify, vVerifyBlob, vVerifyBlobGenError, skipVerify, nVerify, nVerifyBlob, userMetadata, revStep, revFails, signingKeys]
 
 /-- in particular: no configuration, asked for the global blob statement from several goroutines, panics -/
 theorem no_panic_global_lookup_shared (i : Input) (n : Nat) : (run { i with named := false, workers := n }).panicked = false :=
@@ -126,12 +126,12 @@ theorem cap_respected (i : Input) (h : (run i).fetched = true) : i.claimed ≤ c
   cases he : i.entry <;> simp
   case hostileStore => simp [hostile, withinCap]
   all_goals
-    cases ho : i.oci <;> cases hb : i.blob <;> cases hs : i.sig <;> cases hm : i.manager <;>
+    cases ho : i.oci <;> cases hb : i.blob <;> cases hs : i.sig <;> cases hm : i.manager <;> cases hrf : revFails i <;>
       (simp [vVerify, vVerifyBlob, vVerifyBlobGenError, skipVerify, nVerify, nVerifyBlob, userMetadata, nilArgs, verifyWithStmt,
-        ho, hb, hs, hm, blobStmt, g1, g2, g3, g4, g5, g6, g7, g8, g9, g10, g11, failNoOutcome, failWith, okWith, panic] <;>
+        ho, hb, hs, hm, hrf, revStep, signingKeys, blobStmt, g1, g2, g3, g4, g5, g6, g7, g8, g9, g10, g11, failNoOutcome, failWith, okWith, panic] <;>
        cases hn : i.named <;>
        simp [vVerify, vVerifyBlob, vVerifyBlobGenError, skipVerify, nVerify, nVerifyBlob, userMetadata, nilArgs, verifyWithStmt,
-        ho, hb, hs, hm, hn, blobStmt, g1, g2, g3, g4, g5, g6, g7, g8, g9, g10, g11, failNoOutcome, failWith, okWith, panic])
+        ho, hb, hs, hm, hrf, revStep, signingKeys, hn, blobStmt, g1, g2, g3, g4, g5, g6, g7, g8, g9, g10, g11, failNoOutcome, failWith, okWith, panic])
 
 /-- a descriptor claiming more than its cap is refused unread - for every claim, however large -/
 theorem oversized_never_read (i : Input) (hf : i.fuzz = false) (he : i.entry = .hostileStore)
@@ -146,6 +146,7 @@ theorem within_cap_is_read (i : Input) (hf : i.fuzz = false) (he : i.entry = .ho
     (run i).fetched = true := by
   rcases hs with hs | hs | hs <;> simp [run, runWith, hf, he, hostile, withinCap, hs] <;> simpa [hs] using h
 
+set_option maxHeartbeats 1600000 in
 /-- **C12 (modelled part)**: every clause of `Holds` is true of the model's behaviour -/
 theorem model_holds (i : Input) : Holds i (run i) = true := by
   have hg := guards_present
@@ -157,12 +158,16 @@ theorem model_holds (i : Input) : Holds i (run i) = true := by
     case hostileStore =>
       simp [Clauses.holds, hostile]
       cases withinCap i <;> simp
+    case signingKeys => simp [Clauses.holds, signingKeys]
+    case parser => simp [Clauses.holds]
+    case loader => simp [Clauses.holds]
+    case concurrent => simp [Clauses.holds]
     all_goals
-      cases ho : i.oci <;> cases hb : i.blob <;> cases hs : i.sig <;> cases hm : i.manager <;>
+      cases ho : i.oci <;> cases hb : i.blob <;> cases hs : i.sig <;> cases hm : i.manager <;> cases hrf : revFails i <;>
         (simp [Clauses.holds, vVerify, vVerifyBlob, vVerifyBlobGenError, skipVerify, nVerify, nVerifyBlob, userMetadata, nilArgs,
-          verifyWithStmt, ho, hb, hs, hm, blobStmt, g1, g2, g3, g4, g5, g6, g7, g8, g9, g10, g11, failNoOutcome,
+          verifyWithStmt, ho, hb, hs, hm, hrf, revStep, signingKeys, blobStmt, g1, g2, g3, g4, g5, g6, g7, g8, g9, g10, g11, failNoOutcome,
           failWith, okWith, panic, hostile] <;> cases hn : i.named <;> simp [Clauses.holds, vVerify, vVerifyBlob, vVerifyBlobGenError, skipVerify, nVerify, nVerifyBlob, userMetadata, nilArgs,
-          verifyWithStmt, ho, hb, hs, hm, hn, blobStmt, g1, g2, g3, g4, g5, g6, g7, g8, g9, g10, g11, failNoOutcome,
+          verifyWithStmt, ho, hb, hs, hm, hrf, revStep, signingKeys, hn, blobStmt, g1, g2, g3, g4, g5, g6, g7, g8, g9, g10, g11, failNoOutcome,
           failWith, okWith, panic, hostile])
   · simp [Clauses.holds]
 
@@ -191,6 +196,123 @@ example : Holds { entry := .hostileStore, oci := .enforce, blob := .enforce, man
 example : Holds { entry := .vVerify, oci := .enforce, blob := .missing, manager := true, sig := .garbage, fuzz := false, label := "", data := "" }
     { panicked := false, err := true, outcome := none, consistent := true } = false := by decide
 example : Holds { entry := .nVerify, oci := .missing, blob := .enforce, manager := true, sig := .valid, fuzz := false, label := "", data := "" }
+    { panicked := true, err := false, outcome := none, consistent := false } = false := by decide
+
+
+/-! ### revocation: the count of the validator's results -/
+
+/-- **fail closed on the count**: a caller-supplied revocation validator (or deprecated client) that does not answer
+with exactly one result per certificate - fewer OR MORE - fails an otherwise acceptable verification, with an outcome
+whose error is set and that carries the envelope content; it is a result, not a panic -/
+theorem revocation_count_fails_closed (i : Input) (hf : i.fuzz = false) (he : i.entry = .vVerify ∨ i.entry = .vVerifyBlob)
+    (ho : i.oci = .enforce) (hb : i.blob = .enforce) (hs : i.sig = .valid) (hr : i.rev = true) (hn : i.revSurplus ≠ 0) :
+    run i = failWith true := by
+  rcases he with he | he <;>
+    simp [run, runWith, hf, he, vVerify, vVerifyBlob, blobStmt, ho, hb, hs, verifyWithStmt, revStep, revFails, hr, hn, okWith, failWith]
+
+/-- ... and exactly one (OK) result per certificate accepts it: the count test does not refuse everything -/
+theorem revocation_exact_count_accepts (i : Input) (hf : i.fuzz = false) (he : i.entry = .vVerify ∨ i.entry = .vVerifyBlob)
+    (ho : i.oci = .enforce) (hb : i.blob = .enforce) (hs : i.sig = .valid) (hn : i.revSurplus = 0) :
+    run i = okWith true := by
+  rcases he with he | he <;>
+    simp [run, runWith, hf, he, vVerify, vVerifyBlob, blobStmt, ho, hb, hs, verifyWithStmt, revStep, revFails, hn, okWith, failWith]
+
+/-- whatever the validator's count, through whichever of the two interfaces: no entry point panics -/
+theorem no_panic_any_result_count (i : Input) (n : Int) (b : Bool) :
+    (run { i with rev := true, revSurplus := n, revClient := b }).panicked = false := no_panic _
+
+/-- the count matters only where revocation is enforced and a validator is asked -/
+theorem rev_surplus_irrelevant_unless_checked (g : Guards) (i : Input) (n : Int) (h : i.rev = false) :
+    runWith g { i with revSurplus := n } = runWith g i := by
+  unfold runWith
+  cases hf : i.fuzz <;> simp [hf]
+  cases he : i.entry <;> simp [he, h, blobStmt, hostile, withinCap, vVerify, vVerifyBlob, vVerifyBlobGenError, skipVerify, nVerify, nVerifyBlob, userMetadata, revStep, revFails, signingKeys]
+
+/-- `RevocationCodeSigningValidator` and the deprecated `RevocationClient` feed the same `revocationFinalResult` -/
+theorem rev_client_irrelevant (g : Guards) (i : Input) (b : Bool) : runWith g { i with revClient := b } = runWith g i := by
+  unfold runWith
+  cases hf : i.fuzz <;> simp [hf]
+  cases he : i.entry <;> simp [he, blobStmt, hostile, withinCap, vVerify, vVerifyBlob, vVerifyBlobGenError, skipVerify, nVerify, nVerifyBlob, userMetadata, revStep, revFails, signingKeys]
+
+/-! ### `SigningKeys.Remove` -/
+
+/-- a name that is not in the key list (any more) when its turn comes is an error -/
+theorem removeErr_of_mem_not_mem (n : String) : ∀ (ns ks : List String), n ∈ ns → n ∉ ks → removeErr ks ns = true := by
+  intro ns
+  induction ns with
+  | nil => intro ks h; simp at h
+  | cons m ms ih =>
+    intro ks hmem hnot
+    by_cases hmn : m = n
+    · subst hmn; simp [removeErr, hnot]
+    · have h1 : n ∈ ms := by
+        rcases List.mem_cons.mp hmem with h | h
+        · exact absurd h.symm hmn
+        · exact h
+      have h2 : n ∉ ks.erase m := fun h => hnot (List.mem_of_mem_erase h)
+      simp [removeErr, ih (ks.erase m) h1 h2]
+
+/-- **a repeated name**: on a key list without repeated names, an argument list in which a name occurs twice is an
+ERROR (not found at its second turn) - for every list, every position of the repetition -/
+theorem remove_repeated_name_not_found : ∀ (ns ks : List String), ks.Nodup → ¬ ns.Nodup → removeErr ks ns = true := by
+  intro ns
+  induction ns with
+  | nil => intro ks _ h; simp at h
+  | cons m ms ih =>
+    intro ks hk hd
+    by_cases hm : m ∈ ms
+    · have : m ∉ ks.erase m := fun h => (List.Nodup.mem_erase_iff hk).mp h |>.1 rfl
+      simp [removeErr, removeErr_of_mem_not_mem m ms (ks.erase m) hm this]
+    · have hms : ¬ ms.Nodup := fun h => hd (List.nodup_cons.mpr ⟨hm, h⟩)
+      simp [removeErr, ih (ks.erase m) (hk.erase m) hms]
+
+/-- pairwise different, non-empty names that are all in the list are removed without error -/
+theorem remove_ok_of_distinct_known : ∀ (ns ks : List String), "" ∉ ns → ns.Nodup → (∀ n ∈ ns, n ∈ ks) → removeErr ks ns = false := by
+  intro ns
+  induction ns with
+  | nil => intros; rfl
+  | cons m ms ih =>
+    intro ks hne hd hsub
+    have hm : m ≠ "" := fun h => hne (by simp [h])
+    have hmk : m ∈ ks := hsub m (by simp)
+    have hd' := List.nodup_cons.mp hd
+    have hrest : ∀ n ∈ ms, n ∈ ks.erase m := by
+      intro n hn
+      have hnm : n ≠ m := fun h => hd'.1 (h ▸ hn)
+      exact (List.mem_erase_of_ne hnm).mpr (hsub n (by simp [hn]))
+    have hne' : "" ∉ ms := fun h => hne (by simp [h])
+    simp [removeErr, hm, hmk, ih (ks.erase m) hne' hd'.2 hrest]
+
+/-- `Remove` returns normally on every key list and every argument list, and whether it reports an error does not
+depend on the default key -/
+theorem remove_returns_normally (i : Input) (hf : i.fuzz = false) (he : i.entry = .signingKeys) :
+    (run i).panicked = false ∧ (run i).err = removeErr i.keys i.names := by
+  simp [run, runWith, hf, he, signingKeys]
+
+theorem remove_default_irrelevant (g : Guards) (i : Input) (d : Option String) : runWith g { i with deflt := d } = runWith g i := by
+  unfold runWith
+  cases hf : i.fuzz <;> simp [hf]
+  cases he : i.entry <;> simp [he, blobStmt, hostile, withinCap, vVerify, vVerifyBlob, vVerifyBlobGenError, skipVerify, nVerify, nVerifyBlob, userMetadata, revStep, revFails, signingKeys]
+
+/-- what a sampled case is made of (the shape of a hostile referrer node, a history of calls, a file's bytes:
+`label`, `data`) is not looked at by the model: such cases are judged by the clauses alone -/
+theorem label_data_irrelevant (g : Guards) (i : Input) (l d : String) : runWith g { i with label := l, data := d } = runWith g i := by
+  unfold runWith
+  cases hf : i.fuzz <;> simp [hf]
+  cases he : i.entry <;> simp [he, blobStmt, hostile, withinCap, vVerify, vVerifyBlob, vVerifyBlobGenError, skipVerify, nVerify, nVerifyBlob, userMetadata, revStep, revFails, signingKeys]
+
+/-- surplus results: an error with an outcome; a panic there is refuted by `Holds` -/
+example : run { entry := .vVerify, oci := .enforce, blob := .enforce, manager := true, sig := .valid, rev := true, revSurplus := 1, fuzz := false, label := "", data := "" } =
+    failWith true := by decide
+example : run { entry := .nVerify, oci := .enforce, blob := .enforce, manager := true, sig := .valid, rev := true, revSurplus := 2, revClient := true, fuzz := false, label := "", data := "" } =
+    failNoOutcome := by decide
+example : Holds { entry := .vVerify, oci := .enforce, blob := .enforce, manager := true, sig := .valid, rev := true, revSurplus := 1, fuzz := false, label := "", data := "" }
+    { panicked := true, err := false, outcome := none, consistent := false } = false := by decide
+/-- Remove("a", "a") on [a, b]: an error; on [a, a]: none; a panic is refuted by `Holds` -/
+example : (run { entry := .signingKeys, oci := .enforce, blob := .enforce, manager := true, sig := .valid, keys := ["a", "b"], names := ["a", "a"], fuzz := false, label := "", data := "" }).err = true := by decide
+example : (run { entry := .signingKeys, oci := .enforce, blob := .enforce, manager := true, sig := .valid, keys := ["a", "a"], names := ["a", "a"], fuzz := false, label := "", data := "" }).err = false := by decide
+example : (run { entry := .signingKeys, oci := .enforce, blob := .enforce, manager := true, sig := .valid, keys := ["a", "b", "c"], deflt := some "b", names := ["c", "a"], fuzz := false, label := "", data := "" }).err = false := by decide
+example : Holds { entry := .signingKeys, oci := .enforce, blob := .enforce, manager := true, sig := .valid, keys := ["a", "b"], names := ["a", "a"], fuzz := false, label := "", data := "" }
     { panicked := true, err := false, outcome := none, consistent := false } = false := by decide
 
 end NotationModel.C12
